@@ -429,6 +429,8 @@ func runC02Live(c *Ctx) {
 				<-g // a slow handler: the lines that follow pile up behind it
 			}
 		}
+		// (a background handler too: background dispatches of consecutive lines overlap)
+		s.Conn.HandleBG("VNUM", client.HandlerFunc(func(_ *client.Conn, l *client.Line) {}))
 		s.Conn.HandleFunc("VNUM", func(_ *client.Conn, l *client.Line) {
 			mu.Lock()
 			if len(l.Args) > 0 {
